@@ -49,12 +49,27 @@ class World(object):
             self.ids[id(t)] = k
         return k
 
+    def fid(self, t, foreign):
+        """id of a taxon of a COPY: known world objects keep their id, new objects (deep copies) get ids
+        100001.. local to this projection, so the world's id space (= the model's) is not disturbed"""
+        k = self.ids.get(id(t))
+        if k is not None:
+            return k
+        k = foreign.get(id(t))
+        if k is None:
+            k = 100001 + len(foreign)
+            foreign[id(t)] = k
+        return k
+
     def label_of(self, t):
         return t.label if isinstance(t.label, str) else "<%r>" % (t.label,)
 
-    def state(self, ns=None):
+    def state(self, ns=None, foreign=None):
         ns = ns or self.ns
-        members = [self.tid(t) for t in list(ns._taxa)]
+        if foreign is None:
+            members = [self.tid(t) for t in list(ns._taxa)]
+        else:
+            members = [self.fid(t, foreign) for t in list(ns._taxa)]
         idx, bm = [], []
         for t in list(ns._taxa):
             try:
@@ -143,13 +158,23 @@ _NWK_SPLIT = re.compile(r"^\(\((.*)\), \((.*)\)\);$")
 _NWK_ALL = re.compile(r"^\((.*)\);$")
 
 
+def _q(errs, name, fn, default):
+    """query call that must not raise: an exception is logged (and judged), never propagated"""
+    try:
+        return fn()
+    except Exception as ex:
+        errs.append("%s:%s" % (name, type(ex).__name__))
+        return default
+
+
 def q_mask(w, S):
     ns = w.ns
     st = w.state()
+    errs = []
     taxa = [w.taxa[t - 1] for t in S]
-    m = ns.taxa_bitmask(taxa=taxa)
-    back = _ids(w, ns.bitmask_taxa_list(m))
-    s = ns.bitmask_as_newick_string(m)
+    m = _q(errs, "taxa_bitmask", lambda: ns.taxa_bitmask(taxa=taxa), -1)
+    back = _ids(w, _q(errs, "bitmask_taxa_list", lambda: ns.bitmask_taxa_list(m), [])) if m >= 0 else []
+    s = _q(errs, "bitmask_as_newick_string", lambda: ns.bitmask_as_newick_string(m), "") if m >= 0 else ""
     mm = _NWK_SPLIT.match(s)
     if mm:
         form = "split"
@@ -160,40 +185,46 @@ def q_mask(w, S):
         form = "all" if mm else "unparsed"
         n1 = [x for x in (mm.group(1).split(",") if mm else [s]) if x != ""]
         n2 = []
-    bs = ns.bitmask_as_bitstring(m)
+    bs = _q(errs, "bitmask_as_bitstring", lambda: ns.bitmask_as_bitstring(m), "") if m >= 0 else ""
     ones = [i for i, ch in enumerate(reversed(bs)) if ch == "1"]
+    allm = _q(errs, "all_taxa_bitmask", lambda: ns.all_taxa_bitmask(), -1)
     return {"action": "QMask", "pre": st, "post": st, "S": list(S), "mask": bits(m), "back": back,
             "nwkform": form, "nwk1": n1, "nwk2": n2, "bitstr_ones": ones, "bitstr_len": len(bs),
-            "allmask": bits(ns.all_taxa_bitmask())}
+            "allmask": bits(allm), "raised": ",".join(errs)}
 
 
 def q_lookup(w, l, c):
     ns = w.ns
     st = w.state()
     cs = CSARG[c]
+    errs = []
     return {"action": "QLookup", "pre": st, "post": st, "l": l, "c": c,
-            "findall": _ids(w, ns.findall(l, is_case_sensitive=cs)),
-            "get_taxon": _ids(w, ns.get_taxon(l, is_case_sensitive=cs)),
-            "has": bool(ns.has_taxon_label(l, is_case_sensitive=cs)),
-            "get_taxa_all": _ids(w, ns.get_taxa([l], is_case_sensitive=cs)),
-            "get_taxa_first": _ids(w, ns.get_taxa([l], is_case_sensitive=cs, first_match_only=True))}
+            "findall": _ids(w, _q(errs, "findall", lambda: ns.findall(l, is_case_sensitive=cs), [])),
+            "get_taxon": _ids(w, _q(errs, "get_taxon", lambda: ns.get_taxon(l, is_case_sensitive=cs), None)),
+            "has": bool(_q(errs, "has_taxon_label", lambda: ns.has_taxon_label(l, is_case_sensitive=cs), False)),
+            "get_taxa_all": _ids(w, _q(errs, "get_taxa", lambda: ns.get_taxa([l], is_case_sensitive=cs), [])),
+            "get_taxa_first": _ids(w, _q(errs, "get_taxa", lambda: ns.get_taxa([l], is_case_sensitive=cs, first_match_only=True), [])),
+            "raised": ",".join(errs)}
 
 
 def q_copy(w, route):
     ns = w.ns
     st = w.state()
+    errs = []
     if route == "constructor":
-        c = w.d.TaxonNamespace(ns)
+        c = _q(errs, "constructor", lambda: w.d.TaxonNamespace(ns), None)
     elif route == "copy":
-        c = copy.copy(ns)
+        c = _q(errs, "copy", lambda: copy.copy(ns), None)
     else:
-        c = copy.deepcopy(ns)
-    cs = w.state(c)
+        c = _q(errs, "deepcopy", lambda: copy.deepcopy(ns), None)
+    if c is None:
+        return {"action": "Copy", "pre": st, "post": st, "route": route, "raised": ",".join(errs),
+                "cpy": {"members": [], "idx": [], "bm": [], "next": 0, "labs": []}}
+    cs = w.state(c, foreign={})
     cpy = {"members": cs["members"], "idx": cs["idx"], "bm": cs["bm"], "next": cs["next"],
            "labs": [w.label_of(t) for t in c._taxa]}
     post = w.state()
-    st["labels"] = post["labels"][:len(st["labels"])]
-    return {"action": "Copy", "pre": st, "post": dict(post, labels=st["labels"]), "route": route, "cpy": cpy}
+    return {"action": "Copy", "pre": st, "post": post, "route": route, "cpy": cpy, "raised": ""}
 
 
 def subsets(xs):
